@@ -7,7 +7,7 @@ CONSTANTS
   Vals = {7}
   Args = {2}
   ObjTraits = {"Ra", "Rb", "Ma", "Ob", "Kid", "Clone"}
-  Ops = {"EnvNew", "EnvDrop", "EnvRelease", "NewOwned", "NewBorrowed", "Call", "CastBorrow", "CastMove", "Upcast", "Clone", "KidOwned", "KidBorrowed", "Consume", "ConsumeEnd", "Drop"}
+  Ops = {"EnvNew", "EnvDrop", "EnvRelease", "NewOwned", "NewBorrowed", "Call", "CastBorrow", "CastMove", "Upcast", "Clone", "KidOwned", "KidBorrowed", "KidView", "Consume", "ConsumeEnd", "Drop"}
   PTs = {0, 1, 2, 3, 4, 5}
   Depth = 2
 SPECIFICATION GenSpec
